@@ -205,7 +205,7 @@ def _jsonable(x):
     return repr(x)
 
 
-def run_e2(name, names, body, pre=None, positive=(), expect_raise=None, max_paths=64, budget_s=240.0, natoms=40,
+def run_e2(name, names, body, pre=None, positive=(), expect_raise=None, max_paths=64, budget_s=240.0, natoms=80,
            setup=None, concrete=None, first_sample=None, functions=(), bounds="", stubs=(), pi=True, rtol=1e-7,
            allow_status=("ok",), lemmas=None, alt_timeout_ms=4000, solver_timeout_ms=20000):
     """Explore ``body(H, V)`` symbolically (V: dict name -> Sym) and replay violations concretely.
@@ -444,6 +444,74 @@ def _worker(args):
                     violations=[], inconclusive=[], claims={}, n_claims=0, vacuous=True, wall_s=round(time.time() - t0, 2))
 
 
+HARD_TIMEOUT_S = {"quick": 420, "thorough": 3000}
+MEM_LIMIT_BYTES = 8 * 2 ** 30
+
+
+def _child(args, conn):
+    try:
+        import resource
+
+        resource.setrlimit(resource.RLIMIT_AS, (MEM_LIMIT_BYTES, MEM_LIMIT_BYTES))
+    except Exception:  # noqa: BLE001
+        pass
+    try:
+        r = _worker(args)
+    except BaseException as ex:  # noqa: BLE001
+        r = dict(name=args[1], harness_errors=["worker died: %s: %s" % (type(ex).__name__, ex)], violations=[], inconclusive=[], claims={},
+                 n_claims=0, vacuous=True, wall_s=0)
+    try:
+        conn.send(r)
+    except Exception as ex:  # noqa: BLE001
+        conn.send(dict(name=args[1], harness_errors=["result not sendable: %s" % ex], violations=[], inconclusive=[], claims={}, n_claims=0,
+                       vacuous=True, wall_s=0))
+    conn.close()
+
+
+def _run_pool(tasks, procs, hard_timeout_s):
+    """One process per obligation, at most ``procs`` at a time, hard wall-clock and memory limits.
+    An obligation that exceeds a limit is *inconclusive* (budget), never a pass and never a violation."""
+    ctx = mp.get_context("fork")
+    pending = list(tasks)
+    running = []
+    results = {}
+    while pending or running:
+        while pending and len(running) < procs:
+            t = pending.pop(0)
+            pc, cc = ctx.Pipe(duplex=False)
+            p = ctx.Process(target=_child, args=(t, cc), daemon=True)
+            p.start()
+            cc.close()
+            running.append((t, p, pc, time.time()))
+        time.sleep(0.05)
+        still = []
+        for t, p, pc, t0 in running:
+            got = None
+            if pc.poll():
+                try:
+                    got = pc.recv()
+                except EOFError:
+                    got = None
+                p.join(5)
+            elif not p.is_alive():
+                got = dict(name=t[1], budget_exceeded="worker exited without a result (memory limit %d GiB?)" % (MEM_LIMIT_BYTES // 2 ** 30),
+                           violations=[], inconclusive=["<whole obligation>"], claims={}, n_claims=0, vacuous=False, harness_errors=[],
+                           wall_s=round(time.time() - t0, 1))
+            elif time.time() - t0 > hard_timeout_s:
+                p.kill()
+                p.join(5)
+                got = dict(name=t[1], budget_exceeded="hard wall-clock limit %ds" % hard_timeout_s, violations=[], inconclusive=["<whole obligation>"],
+                           claims={}, n_claims=0, vacuous=False, harness_errors=[], wall_s=round(time.time() - t0, 1))
+            if got is None and not (pc.poll() or not p.is_alive() or time.time() - t0 > hard_timeout_s):
+                still.append((t, p, pc, t0))
+            else:
+                if got is None:
+                    got = dict(name=t[1], harness_errors=["no result"], violations=[], inconclusive=[], claims={}, n_claims=0, vacuous=True, wall_s=0)
+                results[t[1]] = got
+        running = still
+    return [results[t[1]] for t in tasks]
+
+
 def load_known():
     p = os.path.join(VERIF, "known_findings.json")
     if not os.path.exists(p):
@@ -471,9 +539,8 @@ def run_property(pid, modname, tier="quick", seed=0, level="model_checking", pro
     if only:
         obs = [o for o in obs if re.search(only, o)]
     procs = procs or min(16, max(1, len(obs)))
-    ctx = mp.get_context("fork")
-    with ctx.Pool(procs, maxtasksperchild=1) as pool:
-        results = pool.map(_worker, [(pid, o, modname, tier, seed) for o in obs], chunksize=1)
+    hard = HARD_TIMEOUT_S.get(tier, 900)
+    results = _run_pool([(pid, o, modname, tier, seed) for o in obs], procs, hard)
     known = load_known()
     n_viol = 0
     lines = []
